@@ -2,7 +2,11 @@ SPECIFICATION Spec
 CONSTANTS Setters = {1,2}
   Waiters = {1,2}
   ReadyBeforeLock = TRUE
+  Recycle = FALSE
+  UnlockBeforeBcast = FALSE
 INVARIANT OneWinner
 INVARIANT ValueOfWinner
+INVARIANT RecyclerSeesNewSet
+INVARIANT ResetLegal
 PROPERTY AllReturn
 CHECK_DEADLOCK FALSE
